@@ -28,7 +28,9 @@ def run(ctx):
     cases = []
     for i, v in enumerate(vecs):
         e2e = v["lit"][0] in ("ql1", "ql2") and v["ok"] and v["stop"] == len(v["lit"]) and (v["mode"] == "roundtrip" or i % 5 == 0)
-        cases.append(dict(id=i, lit=v["lit"], val=v["val"], reps=[0, 1 + (i + ctx.seed) % 9] if quick else [0, 1, 2, 3, 7], e2e=e2e))
+        # a sample of the round-trip literals also as LONG literals in a file: the body starts 2..0 bytes before / at a 4096-byte block boundary
+        pads = [4096 * (1 + i % 2) - 9 - d for d in (0, 1, 2, 3)] if (e2e and v["mode"] == "roundtrip" and i % (25 if quick else 4) == 0) else []
+        cases.append(dict(id=i, lit=v["lit"], val=v["val"], reps=[0, 1 + (i + ctx.seed) % 10] if quick else [0, 1, 2, 3, 7, 10], e2e=e2e, pads=pads))
     res = common.run_harness(ctx, znh, "strlit", cases, timeout=3000)
     nrt = ndec = nsoft = 0
     for r in res:
@@ -52,6 +54,11 @@ def run(ctx):
                     rep("end", "literal %r closes after %d characters in the spec, after %d in the lexer" % (run_["src"], v["stop"], run_["end"]))
                 elif "e2e_obs" in run_ and not run_.get("e2e_eq"):
                     rep("e2e", "输出%s gave %r (%s), expected %r" % (run_["src"], run_.get("e2e_got"), run_.get("e2e_msg"), run_["want"]))
+                else:
+                    for k_, fr in run_.items():
+                        if k_.startswith("file_") and not fr.get("eq"):
+                            rep("long-literal-in-file", "literal %r preceded by %d letters, read from a file: value %s, expected %r after the letters" % (run_["src"], fr["pad"], fr.get("got_tail", fr.get("msg")), run_["want"]))
+                            break
             else:
                 if run_["status"] == "ok":
                     rep("unterminated-accepted", "unterminated literal %r was accepted as %r" % (run_["src"], run_["got"]))
@@ -62,7 +69,7 @@ def run(ctx):
                rule="round trip: every text of length <= 3 over the 29-symbol critical alphabet (10 quote characters, back-tick, CR, LF, escape-name letters, +, hex "
                     "digits, other) x openers {“,『,《} x 2 writer styles, plus all texts <= 2 x all 5 openers (thorough: <= 5 over a 10-symbol alphabet): the "
                     "spec's writer output is read by the spec's reader (TLC invariant RoundTrip) and by zh.NextToken (and 输出‹literal› for the “ ” / 「 」 "
-                    "families); decode direction: every body <= 4 over 16 symbols, <= 3 over all 29, <= 5 (thorough 6) over 10 symbols: value, closing position and "
+                    "families, a sample of them also as LONG literals read from a file, the body placed at / across the 4096-byte read-block boundaries); decode direction: every body <= 4 over 16 symbols, <= 3 over all 29, <= 5 (thorough 6) over 10 symbols: value, closing position and "
                     "'unterminated => syntax error 27' compared; `U+h..h` with every hex string of <= 8 digits over {0,1,D,F} and <= 6 over {0,1,8,D,F} (zero padding, surrogates, > 10FFFF) wherever every back-tick sequence is a documented escape (others: totality only). quick replays every decode "
                     "body that contains a complete back-tick sequence, and a seeded sample (80000 / 40000 / 40000) of the round-trip, other decode and U+ vectors, with 2 concrete representations",
                roundtrip_runs=nrt, decode_runs=ndec, soft_runs=nsoft)
